@@ -18,6 +18,7 @@ type Profile struct {
 	QKinds  []int
 	NQ      [2]int
 	WrapPct int
+	ReenterPct int // percent of the single submissions whose worker function calls back into the library (introspection, or a follow-up Add)
 	BoundPct   int // percent of the wrapped in-memory queues that are bounded (capacity 1-3, Enqueue waits while full)
 	AckCapPct  int // percent of the wrapped standard queues that also implement IAcknowledgeable
 	WrapDeqPct int // percent of the wrapped in-memory queues that refuse 10-30 % of the dequeues although they are not empty
@@ -254,6 +255,30 @@ func generate(r *simrt.Rand, pf *Profile) (Cfg, *Program) {
 		}
 	}
 	nsub := len(p.Subs)
+	// (follow-up jobs submitted by worker functions come after nsub: no client task targets them)
+	if pf.ReenterPct > 0 {
+		// (a worker function that submits to a bounded queue waits for room that only the
+		// worker can make: the caller's deadlock, not the library's)
+		bounded := false
+		for _, q := range c.Queues {
+			if q.Bound > 0 {
+				bounded = true
+			}
+		}
+		for i, n := 0, len(p.Subs); i < n; i++ {
+			if p.Subs[i].Batch >= 0 || p.Subs[i].Pre || !r.Chance(pf.ReenterPct) {
+				continue
+			}
+			if bounded || r.Chance(50) {
+				p.Subs[i].Reenter = 1
+			} else {
+				c := newSub(p.Subs[i].Q, -1)
+				p.Subs[c].IsChild = true
+				p.Subs[c].CloseInFn = false
+				p.Subs[i].Reenter, p.Subs[i].Child = 2, c
+			}
+		}
+	}
 	anySub := func() int {
 		if nsub == 0 {
 			return 0
@@ -485,6 +510,7 @@ func init() {
 	register(&Property{ID: "C01", Rule: "episodes in which >=1 job was accepted and >=1 context switch happened inside library code; distinct = hash of (context-switch site sequence, program, configuration)",
 		Gen: func(r *simrt.Rand, tier string) (Cfg, *Program) {
 			pf := baseProfile()
+			pf.ReenterPct = 8 // worker functions that call back into the library
 			pf.WrapDeqPct = 15 // user-supplied queues that refuse a dequeue now and then
 			pf.QKinds = allKinds
 			pf.Expiry = []int{0, 0, 0, 1, 50}
@@ -520,6 +546,7 @@ func init() {
 	register(&Property{ID: "C03", Rule: "episodes with >=2 accepted jobs, a running worker at the end and >=1 library context switch; distinct = schedule/program hash",
 		Gen: func(r *simrt.Rand, tier string) (Cfg, *Program) {
 			pf := baseProfile()
+			pf.ReenterPct = 8 // worker functions that call back into the library
 			pf.BoundPct = 10 // bounded user queues: a producer waiting for room relies on the worker being woken for what is already in
 			if r.Chance(20) {
 				// several queues under every strategy: whichever queue holds the jobs, they are dispatched
@@ -560,6 +587,7 @@ func init() {
 	register(&Property{ID: "C05", Rule: "episodes in which a handle call (Wait/Result/Err/batch Wait) was invoked before the job was released; distinct = schedule/program hash",
 		Gen: func(r *simrt.Rand, tier string) (Cfg, *Program) {
 			pf := baseProfile()
+			pf.ReenterPct = 8 // worker functions that call back into the library
 			pf.AckCapPct = 10
 			pf.WrapDeqPct = 15 // user-supplied queues that refuse a dequeue now and then
 			pf.BatchPct, pf.BatchMax = 25, 6
@@ -806,6 +834,7 @@ func init() {
 	register(&Property{ID: "C17", Pre: c17Pre, Rule: "raw-queue layer (12 % of the budget): 2-4 simulated clients enqueue/dequeue/purge/Len on one real Queue/PriorityQueue, every Len within [0, enqueues invoked]; worker layer: episodes with >=3 counter samples taken while submissions/dispatch/completions were in progress plus >=1 at-rest sample; distinct = schedule/program hash",
 		Gen: func(r *simrt.Rand, tier string) (Cfg, *Program) {
 			pf := baseProfile()
+			pf.ReenterPct = 8 // worker functions that call back into the library
 			pf.QKinds = allKinds
 			pf.NQ = [2]int{1, 2}
 			pf.BatchPct, pf.BatchMax = 15, 5
